@@ -406,7 +406,7 @@ class InterpBase:
                 m = self.eval(v, fr)
                 if isinstance(m, VRef) and isinstance(self.ex.heap[m.addr], HDict):
                     d.update(self.ex.heap[m.addr].items)
-                elif isinstance(m, VSym) or isinstance(m, VRef):
+                elif isinstance(m, (VSym, VRef, VAbs)):
                     d[('**', len(d))] = m      # opaque spread, kept in order
                 else:
                     raise Undecided('dict spread of ' + repr(m))
